@@ -401,6 +401,13 @@ Definition py_setattr (o : pyval) (name : string) (v : pyval) : res pyval :=
 
 Definition cond (v : pyval) : bool := truthy v.
 
+(* str(type(e)) for an exception object represented by its class name *)
+Definition py_type_str (e : pyval) : pyval :=
+  match e with
+  | VStr cls => VStr (String.append "<class '" (String.append cls "'>"))
+  | _ => VNone
+  end.
+
 (* embedding of typed values, used by specifications and theorems *)
 Definition opt_str (o : option string) : pyval := match o with Some s => VStr s | None => VNone end.
 Definition opt_bool (o : option bool) : pyval := match o with Some b => VBool b | None => VNone end.
